@@ -3,7 +3,7 @@
    of threads, any interleaving, any victim choices).  [ov k] says whether the value the
    cached function returns for key k alone exceeds max_memory (a deterministic function
    returns the same value, hence the same size, for the same key). *)
-From CL Require Import Base SeqModel Inv ConcModel PfConc PfRefine.
+From CL Require Import Base SeqModel Spec Inv ConcModel PfConc PfRefine AsyncConc PfAsyncConc.
 
 Theorem C18_quiescent_consistent :
   forall ov limit pc f s, creach_ov ov limit pc f s -> quiescent s ->
@@ -41,3 +41,40 @@ Theorem C18_seq_run_is_conc_reachable :
     quiescent (abs (fst (run c 0 init h))).
 Proof. exact seq_run_is_conc_reachable. Qed.
 Print Assumptions C18_seq_run_is_conc_reachable.
+
+(* ---- the async engine (M9 AsyncConc): every structural update is one critical section of the
+   order queue, so a concurrent execution is a sequence of atomic actions issued by any number of
+   tasks in any order.  In EVERY state of every such execution (not only at quiescence): queue and
+   store hold the same keys, once each; the entry limit holds; every stored value is the function's
+   value; with memory-aware stores the total size is within max_memory.  And the sequential async
+   model — the one compared step by step with the real engine — is the one-task special case. *)
+Theorem C18_async_consistent_always :
+  forall c l, is_async c = true -> wf_cfg c = true ->
+    NoDup (st_queue (arun c init l)) /\
+    NoDup (keys (st_store (arun c init l))) /\
+    (forall k, In k (st_queue (arun c init l)) <-> In k (keys (st_store (arun c init l)))) /\
+    (forall L, limit c = Some L -> 1 <= L -> N.of_nat (length (st_store (arun c init l))) <= L).
+Proof. exact arun_InvA. Qed.
+Print Assumptions C18_async_consistent_always.
+
+Theorem C18_async_values :
+  forall c f l, is_async c = true -> wf_cfg c = true ->
+    Forall (fun p => astores_f f (snd p)) l ->
+    forall k e, lookup k (st_store (arun c init l)) = Some e -> e_val e = f k.
+Proof. exact arun_values. Qed.
+Print Assumptions C18_async_values.
+
+Theorem C18_async_memory :
+  forall c l, is_async c = true -> wf_cfg c = true ->
+    Forall (fun p => amem_only (snd p)) l ->
+    forall M, maxmem c = Some M -> total_size (st_store (arun c init l)) <= M.
+Proof. exact arun_InvM. Qed.
+Print Assumptions C18_async_memory.
+
+Theorem C18_seq_async_step_is_arun :
+  forall c now s o ch, is_async c = true -> InvA c s ->
+    exists l, Forall (fun p => fst p = now) l /\
+      st_store (arun c s l) = st_store (fst (step c now s o ch)) /\
+      st_queue (arun c s l) = st_queue (fst (step c now s o ch)).
+Proof. exact seq_async_step_is_arun. Qed.
+Print Assumptions C18_seq_async_step_is_arun.
